@@ -16,7 +16,7 @@ d = d[:d.index('\n### 9.6 Seeded changes')]
 d += '''
 ### 9.6 Seeded changes (mutation trials) and which checks catch them
 
-Three rounds of changes were written by fresh sub-agents that saw only the text of
+Four rounds of changes were written by fresh sub-agents that saw only the text of
 one property and a private worktree of `/repo` (nothing from `/verif`):
 round 1 (A, B for all twenty properties) asked for realistic slips needing
 something specific to manifest; round 2 (C, D for all twenty) told the agent,
@@ -27,10 +27,15 @@ allocator interposition with fault injection, emulated CPUID, TSan) and asked
 for changes such a checker is *likely to miss* (rare value patterns, carries
 out of bit 31/32/63, calls of 64 KiB..4 GiB, thousands of calls on one object,
 rarely combined options, pointer relations, untrappable instructions, ...);
-round 3 (E, F for all twenty) repeated round 2's brief and additionally
-required the two changes to differ from each other in mechanism and in the
-module touched (two cooperating edits, alternative-configuration-only code,
-compiler-specific arms, one-slot caches, ...).
+round 3 (E, F for all twenty) went back to round 1's brief but listed the first
+lines of the four earlier changes for the property and required different
+mechanisms, files, ciphers and code paths (it produced two cooperating edits,
+alternative-configuration-only code, compiler-specific arms, one-slot caches,
+...); round 4 (G, H) combined round 2's brief, the list of the six earlier
+changes and further trigger kinds (buffer placement relative to pages and
+alignment classes, compile-time arms, declarations in `include/`, order of use
+of different object kinds, state surviving cleanup, values special to one
+variant).
 Each change was confirmed with `tools/confirm_seeded.py` in a scratch worktree
 (clean tree: 30 tests pass, demonstration passes; changed tree: 30 tests pass,
 demonstration fails) and the checks were run with `VERIF_REPO=<patched
